@@ -37,8 +37,8 @@ type c08Case struct {
 	WC        int    `json:"wait_count"`
 	PluginOn  bool   `json:"master_plugin_on"`
 	DisableRO bool   `json:"disable_set_readonly_on_lost"`
-	FailRO    int    `json:"fail_ro_errno"` // 0 ok, 1205, 1290 (other)
-	Write     bool   `json:"client_write_before"` // a client commit is attempted just before the loss (may get stuck on ACK)
+	FailRO    int    `json:"fail_ro_errno"`           // 0 ok, 1205, 1290 (other)
+	Write     bool   `json:"client_write_before"`     // a client commit is attempted just before the loss (may get stuck on ACK)
 	Excluded  bool   `json:"client_in_exclude_users"` // the committing client's user is in exclude_users (never KILLed)
 	LongQuery bool   `json:"long_client_query"`
 	SSFail    bool   `json:"local_semisync_status_fails"`
